@@ -112,6 +112,35 @@ def inline_aliases(doc, env=None):
     return rec(doc)
 
 
+def strlike_key_grid(ctx):
+    """a fixed grid: dicts keyed by a string-like class whose savorize hook replaces the key node, at the
+    root, nested in lists, and as a class attribute"""
+    yaml, yatiml = L.setup()
+    rng = ctx.rng
+    S = G.S
+    for kind in ('str', 'userstring', 'yatimlstring'):
+        for hook in (('replace', 'canon'), ('replace', 'x'), None):
+            key = dict(name='Key', bases=[], registered=True, kind=kind)
+            if hook:
+                key['savorize'] = [hook]
+            kt = ('map', 'dict', ('cls', 'Key'), ('int',))
+            ps = [dict(name='d', type=kt), dict(name='n', type=('int',), default=0)]
+            holder = dict(name='Holder', bases=[], registered=True, kind='plain', params=ps, all_params=ps,
+                          extra=False, abstract=None, define_init=True)
+            body = ('m', [(S('alpha'), S('1'))] + ([(S('Beta'), S('2'))] if hook != ('replace', 'x') else []), None)
+            for t, doc in ((kt, body), (('seq', 'list', kt), ('q', [('m', [], None), body], None)),
+                           (('cls', 'Holder'), ('m', [(S('d'), body)], None)),
+                           (('map', 'dict', ('str',), kt), ('m', [(S('outer'), body)], None))):
+                try:
+                    c = L.build_case(rng, yaml, yatiml, [key, holder], t, doc, ('strlike-key-grid', kind))
+                    L.run_case(c, yaml)
+                except Exception as e:  # noqa
+                    ctx.count('gen_error:' + type(e).__name__)
+                    continue
+                ctx.count('strlike_key_grid')
+                yield c
+
+
 def alias_grid(ctx):
     """a fixed grid (no chance involved): an anchored EMPTY mapping / sequence reused at another declared
     type, with and without a hook that fills in an attribute in place; an anchored mapping reused at the
